@@ -125,7 +125,7 @@ def showChoice : Choice → String
   | .dropped _ => "drop"
   | .noMatch => "none"
 
-def validSiteByte (c : UInt8) : Bool := (97 ≤ c && c ≤ 122) || (48 ≤ c && c ≤ 57) || c == 46
+def validSiteByte (c : UInt8) : Bool := (97 ≤ c && c ≤ 122) || (48 ≤ c && c ≤ 57) || c == 46 || c == 42
 
 def distinct : List Bytes → Bool
   | [] => true
@@ -156,6 +156,8 @@ def e2eSecret : Bytes := [115, 101, 99, 114, 101, 116, 46, 116, 101, 115, 116]  
 def e2ePublic : Bytes := [112, 117, 98, 108, 105, 99, 46, 116, 101, 115, 116]    -- "public.test"
 def e2ePolicies : List Policy := [⟨[.sni [e2eSecret]], false, true⟩, ⟨[], false, false⟩]
 def e2eSites : List Bytes := [e2eSecret, e2ePublic]
+/-- e2e server 3 protects the wildcard site `*.secret.test` -/
+def e2eSitesWild : List Bytes := [[42, 46] ++ e2eSecret, e2ePublic]
 
 /-- SNIs an e2e case may carry: non-empty, no trailing dot, no `%`, some letter g–z / G–Z
     (so Go's client sends it verbatim: it is not an IP literal) -/
@@ -303,13 +305,13 @@ def handle : List String → String
   | ["e2e", srv, hs, sni, host] =>
     match hexField sni, hexField host with
     | some s, some h =>
-      if !(srv == "0" || srv == "1" || srv == "2") then "bad-op"
+      if !(srv == "0" || srv == "1" || srv == "2" || srv == "3") then "bad-op"
       else if !e2eSniOk s then "bad-op"
       else if hs == "f" then "hs=f"
       else if hs == "p0" || hs == "p1" then
         -- every e2e server has one client-auth policy (shape differs, decision does not) and no explicit setting
         let strict := effectiveStrict none e2ePolicies
-        "hs=" ++ hs ++ " strict=" ++ (if strict then "1" else "0") ++ " " ++ showServed (serve strict e2eSites (some s) h)
+        "hs=" ++ hs ++ " strict=" ++ (if strict then "1" else "0") ++ " " ++ showServed (serve strict (if srv == "3" then e2eSitesWild else e2eSites) (some s) h)
       else "bad-op"
     | _, _ => "bad-op"
   | ["pol", l, pols, hellos] =>
